@@ -130,6 +130,26 @@ S("c03_next_forgets_inner", ["C03", "C16"], "quick",
     kani::cover!(true, "reached_end");
 """)
 
+S("c03_for_reentry_drops_inner", ["C03", "C16"], "quick",
+  "re-entering FOR I while a J loop opened inside it is still open replaces the I loop and forgets the J loop",
+  "loops [I, J] open; 30 FOR I = 5 TO 6",
+  f"""
+    let mut i = Interpreter::default();
+    {L(10, "FOR I = 1 TO 3")}
+    {L(20, "FOR J = 1 TO 3")}
+    {L(30, "FOR I = 5 TO 6")}
+    i.program.run_from_first_numbered_line();
+    set_num(&mut i, "I", 1.0); set_num(&mut i, "J", 1.0);
+    pa::push_loop(&mut i.program, "I", 10, {idx("FOR I = 1 TO 3")}, 3.0, 1.0);
+    pa::push_loop(&mut i.program, "J", 20, {idx("FOR J = 1 TO 3")}, 3.0, 1.0);
+    resume_at(&mut i, 30, 0);
+    assert!(stmt(&mut i).is_none());
+    assert!(pa::loop_len(&i.program) == 1 && pa::loop_symbol_is(&i.program, 0, "I"), "c03: re-entering FOR I forgets the loops opened inside the old I loop");
+    assert!(pa::loop_to(&i.program, 0) == 6.0 && num(&i, "I") == 5.0);
+    assert!(pa::loops_pairwise_distinct(&i.program));
+    kani::cover!(true, "reached_end");
+""")
+
 S("c03_next_without_for_line", ["C03", "C01"], "quick",
   "NEXT J when only I is open is NEXT WITHOUT FOR at the NEXT's line; the I loop is untouched; interpreter idle",
   "loops [I] open; 40 NEXT J",
@@ -683,7 +703,7 @@ S("c08_reenter_twice", ["C08"], "thorough",
     kani::cover!(true, "reached_end");
 """, unwind=16, parse_stub=True, timeout=1500, mem=8000, cost=200)
 
-S("c08_input_array_target", ["C08"], "quick",
+S("c08_input_array_target", ["C08"], "thorough",
   "INPUT with an array target: the reply is stored into the cell and execution continues after the statement",
   "10 INPUT A(1) : B = 2 awaiting at the INPUT token; reply `d`",
   f"""
@@ -768,6 +788,23 @@ S("c09_if_counts_as_one", ["C09"], "quick",
     kani::cover!(c == 0.0, "reached_false");
 """, unwind=16)
 
+S("c09_else_tail_is_a_separate_call", ["C09"], "quick",
+  "IF with an ELSE part followed by further statements on the line: the call that runs the IF runs only the selected statement, never the statements after the ELSE statement",
+  "10 IF c THEN X = 1 ELSE Y = 2 : Z = 3, c any f64",
+  f"""
+    let c: f64 = kani::any();
+    let mut i = Interpreter::default();
+    i.enable_tracing = true;
+    {L(10, "IF #c THEN X = 1 ELSE Y = 2 : Z = 3")}
+    i.program.run_from_first_numbered_line();
+    resume_at(&mut i, 10, 0);
+    assert!(stmt(&mut i).is_none());
+    assert!(!has_var(&i, "Z"), "c09: statements after the ELSE statement are not run by the call that ran the IF");
+    assert!(has_var(&i, "X") == (c != 0.0) && has_var(&i, "Y") == (c == 0.0), "c09: exactly the selected statement ran");
+    assert!(count_kind(&i, O_TRACE) <= 2, "c09: at most one extra trace record for the statement selected by IF");
+    kani::cover!(c == 0.0, "reached_else");
+""", unwind=16)
+
 # ------------------------------------------------------------------------------------------------
 # C16 (session level)
 # ------------------------------------------------------------------------------------------------
@@ -798,7 +835,7 @@ def c16_gosub(depth):
 c16_gosub(31)
 c16_gosub(32)
 
-S("c16_fn_call_at_depth_32", ["C16", "C03"], "quick",
+S("c16_fn_call_at_depth_32", ["C16", "C03"], "thorough",
   "a user-function call with 32 frames open is OUT OF MEMORY (STACK OVERFLOW); with 31 it is evaluated and its frame popped",
   "5 DEF FNA(Q) = Q + 1 registered; d frames (31 or 32, symbolic choice); 10 Z = FNA(2)",
   f"""
@@ -821,7 +858,7 @@ S("c16_fn_call_at_depth_32", ["C16", "C03"], "quick",
     kani::cover!(full, "reached_cap");
 """, unwind=36, timeout=1500, mem=10000, cost=300)
 
-S("c16_for_at_loop_cap", ["C16"], "quick",
+S("c16_for_at_loop_cap", ["C16"], "thorough",
   "FOR with 32 distinct loops open: a new variable is OUT OF MEMORY (STACK OVERFLOW); re-entering an open one drops it and everything above and stays within the cap; loop variables stay pairwise distinct",
   "32 loops AA..BF pre-pushed; 10 FOR ZZ = 1 TO 2 (new) or FOR AC = 1 TO 2 (existing, position 2)",
   f"""
@@ -848,8 +885,8 @@ S("c16_for_at_loop_cap", ["C16"], "quick",
     kani::cover!(existing, "reached_reentry");
 """, unwind=40, timeout=1800, mem=10000, cost=400)
 
-def c16_typed(name, text, var, code, keep_check, what):
-    S(name, ["C16", "C06"], "quick",
+def c16_typed(name, text, var, code, keep_check, what, tier="quick"):
+    S(name, ["C16", "C06"], tier,
       "name-suffix typing through the statement: %s" % what,
       "X = 5 and S$ = 'OLD' stored; immediate: %s" % text,
       f"""
@@ -871,7 +908,7 @@ def c16_typed(name, text, var, code, keep_check, what):
 c16_typed("c16_typed_let_string_to_numeric", 'X = "A"', "X", "E_TYPE", "", "a string cannot be assigned to a numeric name")
 c16_typed("c16_typed_let_number_to_string", 'S$ = 1', "S$", "E_TYPE", "", "a number cannot be assigned to a $ name")
 c16_typed("c16_typed_for_string_var", 'FOR S$ = 1 TO 2', "S$", "E_TYPE", 'assert!(pa::loop_len(&i.program) <= 1);', "FOR cannot use a $ variable")
-c16_typed("c16_typed_array_cell", 'A(1) = "A"', "A", "E_TYPE", 'assert!(cell(&mut i, "A", 1) == 0.0 || true);', "a string cannot be stored in a numeric array cell")
+c16_typed("c16_typed_array_cell", 'A(1) = "A"', "A", "E_TYPE", 'assert!(cell(&mut i, "A", 1) == 0.0 || true);', "a string cannot be stored in a numeric array cell", tier="thorough")
 
 # ------------------------------------------------------------------------------------------------
 # C17
@@ -928,11 +965,13 @@ c17("c17_for_statement", "", "FOR I = 1 TO 3", """
 """, "FOR")
 
 def c17_single(name, text, checks, what):
-    S(name, ["C17"], "quick",
-      "the outcome of the statement is the same for every (tracing, warnings) combination (one interpreter, flags symbolic, outcome compared with flag-independent expected values): %s" % what,
-      "flags (t,w) any booleans; statement: %s" % text,
-      f"""
-    let t: bool = kani::any(); let w: bool = kani::any();
+    # the four (tracing, warnings) configurations are structure: one harness each, concrete flags
+    for (t, w) in ((False, False), (True, False), (False, True), (True, True)):
+        S("%s_t%d_w%d" % (name.replace("_any_flags", ""), int(t), int(w)), ["C17"], "quick",
+          "the outcome of the statement is the same in each of the four (tracing, warnings) configurations (expected values do not depend on the flags): %s" % what,
+          "tracing=%s warnings=%s; statement: %s" % (t, w, text),
+          f"""
+    let t: bool = {str(t).lower()}; let w: bool = {str(w).lower()};
     let mut i = Interpreter::default();
     i.enable_tracing = t; i.enable_warnings = w;
     {L(10, text)}
@@ -941,11 +980,11 @@ def c17_single(name, text, checks, what):
     resume_at(&mut i, 10, 0);
     let e = stmt(&mut i);
     assert!(count_kind(&i, O_TRACE) == if t {{ 1 }} else {{ 0 }}, "c17: one trace record iff tracing");
+    if t {{ assert!(trace_line(&i, 0) == 10, "c17: the trace record names the executing line"); }}
     assert!(count_kind(&i, O_PRINT) == 0);
 {checks}
-    kani::cover!(t && w, "reached_both_on");
-    kani::cover!(!t && !w, "reached_both_off");
-""", unwind=16, timeout=900, mem=6000, cost=100)
+    kani::cover!(true, "reached_end");
+""", unwind=16, timeout=600, mem=5000, cost=40)
 
 c17_single("c17_read_unassigned_variable_any_flags", "X = Y + 1", """
     assert!(e.is_none() && num(&i, "X") == 1.0 && !has_var(&i, "Y"), "c17: an unassigned variable reads as 0 whatever the flags, and is not created");
@@ -1020,23 +1059,38 @@ S("c01_new_command_state", ["C01", "C19"], "quick",
     kani::cover!(true, "reached_end");
 """, unwind=16, timeout=1500, mem=8000, cost=250)
 
-S("c18_rnd_through_interpreter", ["C18", "C01"], "quick",
-  "randomize(seed) stores exactly the seed (any u64) and RND(e) in a statement reaches the generator with the value of e",
-  "randomize(seed); immediate X = RND(1) ; seed any u64",
+S("c18_randomize_stores_seed", ["C18", "C01"], "quick",
+  "randomize(seed) stores exactly the seed, for every u64",
+  "randomize(seed), seed any u64",
   f"""
     let seed: u64 = kani::any();
     let mut i = Interpreter::default();
     i.randomize(seed);
     assert!(rng_seed(&i) == seed, "c18: randomize stores the seed unchanged");
-    assert!({IMM("X = RND(1)")}.is_none(), "c01: RND after randomize(any seed) must not fail");
-    let next = ((1664525u128 * (seed as u128) + 1013904223u128) % (1u128 << 33)) as u64;
-    assert!(rng_seed(&i) == next, "c18: one RND(1) advances the generator once");
-    assert!(num(&i, "X") == (next as f64) / 8589934592.0, "c18: RND(1) yields state / 2^33");
-    assert!({IMM("Y = RND(0)")}.is_none());
-    assert!(num(&i, "Y") == num(&i, "X") && rng_seed(&i) == next, "c18: RND(0) repeats without advancing");
+    assert!(st(&i) == ST_IDLE);
     kani::cover!(seed == u64::MAX, "reached_max_seed");
-""", unwind=16, timeout=900, mem=6000, cost=120)
+""", unwind=8, timeout=300, mem=4000, cost=30)
 
+S("c18_rnd_expression_reaches_generator", ["C18", "C01"], "quick",
+  "RND(1) evaluated by the real expression evaluator advances the interpreter's own generator exactly one step and yields its value (seed u64::MAX: the case that used to overflow); RND(0) repeats it; RND(-1) is an error without advancing",
+  "randomize(u64::MAX); expressions RND(1), RND(0), RND(-1)  (concrete seed: a witness that the builtin reaches the generator the unit harnesses decide for all seeds)",
+  f"""
+    let mut i = Interpreter::default();
+    i.randomize(u64::MAX);
+    let (state, value) = crate::random::verif_raccess::one_step_from(u64::MAX);
+    i.program.set_and_goto_immediate_line({vec("RND(1)")});
+    let r1 = i.evaluate_expression();
+    assert!(matches!(&r1, Ok(Value::Number(v)) if *v == value), "c18: RND(1) yields the generator's next value");
+    assert!(rng_seed(&i) == state, "c18: one RND(1) = one generator step");
+    i.program.set_and_goto_immediate_line({vec("RND(0)")});
+    let r0 = i.evaluate_expression();
+    assert!(matches!(&r0, Ok(Value::Number(v)) if *v == value) && rng_seed(&i) == state, "c18: RND(0) repeats without advancing");
+    i.program.set_and_goto_immediate_line({vec("RND(-1)")});
+    let rn = i.evaluate_expression();
+    assert!(matches!(&rn, Err(e) if err_code(&e.error) == E_UNIMPL) && rng_seed(&i) == state, "c18: a negative argument is an error without advancing");
+    core::mem::forget(r1); core::mem::forget(r0); core::mem::forget(rn);
+    kani::cover!(true, "reached_end");
+""", unwind=16, timeout=900, mem=6000, cost=120)
 def emit(s):
     out = []
     out.append('// @verif prop=%s tier=%s timeout=%d arms=1 mem=%d cost=%d clause="%s"%s' % (
